@@ -834,8 +834,76 @@ def run_real(ctx, spec, only=None):
 
 
 # =============================================================================================
+def chk_particle_filter(ctx, w):
+    """The particle filter's measurement residuals (real GeneticParticleFilter, real radar Observation): adding full turns to the
+    measured azimuth / elevation leaves every particle residual and the weighted innovation unchanged; angular residuals lie in [-pi, pi]."""
+    import copy
+
+    from resonaate.data.observation import Observation
+    from resonaate.dynamics.two_body import TwoBody
+    from resonaate.estimation import GeneticParticleFilter
+    from resonaate.physics.measurements import Measurement
+    from resonaate.physics.time.stardate import ScenarioTime
+
+    x = np.array(w["x"], dtype=float)
+    sen = np.array(w["sensor_eci"], dtype=float)
+    r_m = np.diagflat(w["r_diag"])
+    st_np = np.random.get_state()
+    try:
+        np.random.seed(w["seed"])
+        gpf = GeneticParticleFilter(tgt_id=10001, time=ScenarioTime(0.0), est_x=x, est_p=np.diagflat(w["p_diag"]), dynamics=TwoBody(), maneuver_detection=None,
+                                    initial_orbit_determination=False, adaptive_estimation=False)
+        meas = Measurement.fromMeasurementLabels(["azimuth_rad", "elevation_rad", "range_km", "range_rate_km_p_sec"], r_m)
+        base = Observation.fromMeasurement(epoch_jd=w["jd"], target_id=10001, tgt_eci_state=np.array(w["truth"], dtype=float), sensor_id=1, sensor_eci=sen, sensor_type="radar",
+                                           measurement=meas, noisy=False)
+        _y0, res0 = gpf.calculateResidualsFromObservations([base])
+        res0 = np.array(res0, dtype=float)
+        ctx.check(bool(np.all(np.abs(res0[:2]) <= math.pi + 1e-12)), "particle-residual-angle-out-of-range", f"an angular particle residual is outside [-pi, pi]: max |.| = {np.abs(res0[:2]).max()!r}", w, mon="particle_filter")
+        for kaz, kel in w["turns"]:
+            obs = copy.deepcopy(base)
+            obs.azimuth_rad = base.azimuth_rad + kaz * TWOPI
+            obs.elevation_rad = base.elevation_rad + kel * TWOPI
+            _y, res = gpf.calculateResidualsFromObservations([obs])
+            res = np.array(res, dtype=float)
+            tol = 1e-12 * (1 + abs(kaz) + abs(kel)) * 8
+            d = float(np.abs(res - res0).max())
+            ctx.check(d <= tol, "particle-residuals-change-with-full-turns", f"adding ({kaz}, {kel}) full turns to the measured (azimuth, elevation) changes the particle residuals by up to {d:.3e}", w, mon="particle_filter")
+            ctx.check(bool(np.all(np.abs(res[:2]) <= math.pi + 1e-12)), "particle-residual-angle-out-of-range", f"with ({kaz}, {kel}) extra turns an angular particle residual is {np.abs(res[:2]).max()!r}", w, mon="particle_filter")
+    finally:
+        np.random.set_state(st_np)
+
+
+def gen_particle_filter(rng):
+    from resonaate.physics.transforms.methods import ecef2eci, lla2ecef
+
+    t = datetime(2021, int(rng.integers(1, 13)), int(rng.integers(1, 28)), int(rng.integers(0, 24)), int(rng.integers(0, 60)), 0)
+    from resonaate.physics.time.stardate import datetimeToJulianDate
+
+    lat, lon = float(rng.uniform(-1.2, 1.2)), float(rng.uniform(-math.pi, math.pi))
+    sen = np.array(ecef2eci(lla2ecef(np.array([lat, lon, 0.2])), t), dtype=float)
+    # a satellite roughly above the site (also below the local horizon of the site now and then: negative elevations)
+    up = sen[:3] / np.linalg.norm(sen[:3])
+    off = rng.normal(0, 0.6, 3)
+    dirv = up + off
+    dirv /= np.linalg.norm(dirv)
+    rr = float(rng.choice([7000.0, 8000.0, 12000.0, 42164.0]))
+    pos = rr * dirv
+    vdir = np.cross(dirv, rng.normal(0, 1, 3))
+    vdir /= np.linalg.norm(vdir)
+    x = np.concatenate([pos, math.sqrt(398600.4415 / rr) * vdir])
+    truth = x + np.concatenate([rng.normal(0, 1e-3, 3), rng.normal(0, 1e-6, 3)])
+    ks = [1, -1, 2, -3, 1000, -1000]
+    turns = [(int(rng.choice(ks)), 0), (0, int(rng.choice(ks))), (int(rng.choice(ks)), int(rng.choice(ks)))]
+    return {"kind": "particle", "x": [float(v) for v in x], "truth": [float(v) for v in truth], "sensor_eci": [float(v) for v in sen], "jd": float(datetimeToJulianDate(t)),
+            "p_diag": [1e-6] * 3 + [1e-12] * 3, "r_diag": [2.4e-9, 2.4e-9, 1e-6, 1e-10], "seed": int(rng.integers(1, 2 ** 31 - 1)), "turns": turns}
+
+
 def run(ctx):
     rng = ctx.rng("c16")
+    for _ in range(ctx.scale(6, 300)):
+        wpf = gen_particle_filter(rng)
+        chk_particle_filter(ctx, wpf)
+        ctx.count("particle_filter_cases")
     n_help = ctx.scale(32_000, 3_200_000)
     for i in range(n_help):
         sel = i % 4
@@ -883,7 +951,9 @@ def run(ctx):
 def replay(ctx, w):
     kind = w.get("kind")
     rng = np.random.default_rng(0)
-    if kind == "wrap":
+    if kind == "particle":
+        chk_particle_filter(ctx, w)
+    elif kind == "wrap":
         _replay_wrap(ctx, w)
     elif kind == "residual":
         _replay_residual(ctx, w)
